@@ -141,6 +141,15 @@ mut('stdout_mode_writes_back', 'break', ['C16'], FF,
                 if decoded.bom.is_some() && decoded.contents.len() > formatted_output.len() {
                     let _ = file.set_len(0);
                 }''', 'stdout mode truncates BOM files whose result is shorter')
+mut('dedupe_by_path_only', 'break', ['C18'], FF,
+    '''            Ok(path) => seen.insert(match file_identity(path) {
+                Some(id) => Ok(id),''',
+    '''            Ok(path) => seen.insert(match file_identity(path).filter(|_| false) {
+                Some(id) => Ok(id),''', 'undoes F05: needs two hard-linked names of one file, two workers and a read between write and set_len')
+mut('no_dedupe_at_all', 'break', ['C18'], FF,
+    '''            Ok(path) => seen.insert(match file_identity(path) {''',
+    '''            Ok(path) => true || seen.insert(match file_identity(path) {''', 'undoes F01 and F05: same file named twice')
+
 # ---- behaviour-preserving edits (must stay silent)
 mut('p_always_rewrite', 'preserve', ['C16', 'C17', 'C18'], FF,
     '                if decoded_file.contents.eq(&formatted_output) {\n', '                if false && decoded_file.contents.eq(&formatted_output) {\n', 'rewrites unchanged files with identical bytes')
